@@ -9,7 +9,7 @@ CONSTANTS
   RelayClientChecked = TRUE
   NoSigpipe = TRUE
   MaxHist = 4
-INVARIANTS Reach_HostileEndpointParsed
+INVARIANTS Reach_RelayHintWalked
 VIEW View
 CONSTRAINT Bound
 CHECK_DEADLOCK FALSE
